@@ -585,6 +585,8 @@ class Body:
                     if len(st['d']) == 1:
                         rel.add(st['d'][0])
             t = blk['t']
+            if t['k'] == 'switch' and 'p' in t['d'] and len(t['d']['p']) == 1 and self.local_ty(t['d']['p'][0]) == 'bool':
+                rel.add(t['d']['p'][0])        # `if flag` on a bool local materialised from constants
             if t['k'] == 'call':
                 fn = t.get('f', {})
                 name = fn.get('r') or fn.get('fn') or ''
@@ -668,6 +670,8 @@ class Body:
                 elif r['k'] == 'use' and 'p' in r['o'] and len(r['o']['p']) > 1 and isinstance(f.get(r['o']['p'][0]), tuple) \
                         and f[r['o']['p'][0]][0] == 'rdy' and all(isinstance(p_, str) and (p_.startswith('@Ready') or p_.endswith('::0')) for p_ in r['o']['p'][1:]):
                     f[l] = f[r['o']['p'][0]][1]
+                elif r['k'] == 'use' and 'v' in r['o'] and r['o'].get('ty') == 'bool' and l in rel:
+                    f[l] = ('b', int(r['o']['v']))
                 elif r['k'] == 'agg' and r.get('var') in self._VARIDX:
                     f[l] = self._VARIDX[r['var']]
                 elif r['k'] == 'agg' and r.get('var') and r.get('adt') in self.prog.adts:
@@ -714,7 +718,7 @@ class Body:
             if k == 'switch':
                 dv = t['d']
                 known = None
-                if 'p' in dv and len(dv['p']) == 1 and dv['p'][0] in f and isinstance(f[dv['p'][0]], tuple):
+                if 'p' in dv and len(dv['p']) == 1 and dv['p'][0] in f and isinstance(f[dv['p'][0]], tuple) and f[dv['p'][0]][0] in ('d', 'b'):
                     known = f[dv['p'][0]][1]
                 for y in succ[node]:
                     if y in avoid:
@@ -1406,6 +1410,34 @@ def _cond_from(body, e, val, vals, edge):
     return Cond('bool', expr=e, truth=truth, edge=edge)
 
 
+def bool_local_conds(body, l, truth, expand=True, _depth=1):
+    """what is known when bool local `l` is found to be `truth`: if exactly one of its definitions can have given it that value
+    (the others assign the opposite constant — `let ok = a && b;` lowers to `ok = false` on one arm and `ok = b` on the other), the
+    conditions dominating that definition and, when it is not a constant, the defining expression having that value."""
+    ds = body.defs().get(l, [])
+    cands = []
+    for d in ds:
+        if d[0] != 's':
+            return []
+        r = d[3]['r']
+        if r['k'] == 'use' and 'v' in r['o'] and r['o'].get('ty') == 'bool':
+            if bool(int(r['o']['v'])) == truth:
+                cands.append((d[1], None))
+        else:
+            cands.append((d[1], d[3]))
+    if len(cands) != 1 or _depth > 4:
+        return []
+    bb, stmt = cands[0]
+    out = dominating_conds(body, bb, expand, _depth)
+    if stmt is not None and len(ds) > 1:
+        e = Expr.of_rvalue(body, stmt['r'], 20)
+        c2 = _cond_from(body, e, 'otherwise' if truth else '0', ['0'], None)
+        out.append(c2)
+        if c2.kind == 'bool' and c2.expr.k == 'local' and c2.expr.a != l:
+            out += bool_local_conds(body, c2.expr.a, c2.truth, expand, _depth + 1)
+    return out
+
+
 def dominating_conds(body, node, expand=True, _depth=0):
     """all Conds known to hold at CFG node `node` because a switch edge dominates it.
 
@@ -1421,24 +1453,7 @@ def dominating_conds(body, node, expand=True, _depth=0):
         c = edge_cond(body, edge)
         out.append(c)
         if expand and _depth < 4 and c.kind == 'bool' and c.expr.k == 'local':
-            l = c.expr.a
-            ds = body.defs().get(l, [])
-            consts = []
-            allc = True
-            for d in ds:
-                if d[0] != 's':
-                    allc = False
-                    break
-                r = d[3]['r']
-                if r['k'] == 'use' and 'v' in r['o'] and r['o'].get('ty') == 'bool':
-                    consts.append((bool(int(r['o']['v'])), d[1]))
-                else:
-                    allc = False
-                    break
-            if allc and ds:
-                same = [bb for v, bb in consts if v == c.truth]
-                if len(same) == 1:
-                    out += dominating_conds(body, same[0], expand, _depth + 1)
+            out += bool_local_conds(body, c.expr.a, c.truth, expand, _depth + 1)
     return out
 
 
